@@ -113,6 +113,9 @@ func FuncText(f *u.Func) string {
 	if f.Info {
 		s += " info"
 	}
+	if f.OptsRev {
+		s += " optsrev"
+	}
 	return s
 }
 
